@@ -629,13 +629,30 @@ fn unknown_go_tokens_timed(run: &mut Run, plain: &PathBuf, roots: &[History]) {
             if slots.contains(&order.len()) {
                 parts.push(rng.pick(&["ponder", "infinite", "bar"]).to_string());
             }
+            if rng.chance(1, 3) {
+                // a long run of unknown words (token counts around 2^8, 2^9, 2^10)
+                let n = *rng.pick(&[200usize, 250, 254, 255, 256, 257, 300, 512, 1030]);
+                let junk: Vec<&str> = (0..n).map(|_| *rng.pick(&["foo", "bar", "infinite", "ponder", "xyzzy"])).collect();
+                if rng.chance(1, 2) { parts.insert(0, junk.join(" ")) } else { parts.push(junk.join(" ")) }
+                acc.feature("timed_go_with_hundreds_of_unknown_tokens");
+            }
             let dirty_args = parts.join(" ");
             let g = s.go(&dirty_args, WATCHDOG);
             acc.evaluations += 1;
             let lat = match g.latency_ms() {
                 Some(l) => l,
                 None => {
-                    acc.inconclusive.push("timed go with unknown tokens not answered".into());
+                    // the plan is below 100 ms: with the watchdog gone by, an engine that is alive
+                    // and does not answer isready within 5 more seconds has stopped serving
+                    if s.eng.exited().is_none() && !s.isready(Duration::from_secs(5)) && s.eng.exited().is_none() {
+                        acc.violation(
+                            format!("C17|go-tokens-hang|{}", dirty_args.split(' ').count()),
+                            format!("'go' with {} tokens (unknown words among the clock values; clean line '{}', plan {} ms) is not answered and isready is not answered afterwards: the process is alive and has stopped serving", dirty_args.split(' ').count() + 1, clean, plan),
+                            json!({"kind": "session", "property": "C17", "script": [h.command(), format!("go {}", dirty_args), "isready"]}),
+                        );
+                    } else {
+                        acc.inconclusive.push("timed go with unknown tokens not answered".into());
+                    }
                     return acc;
                 }
             };
